@@ -38,9 +38,10 @@ Inductive event :=
 | EPlugin (ts : Z) (x : session)
 | EUnplug (ts : Z) (x : session)
 | ERecompute (ts : Z)
-(* any other queue entry: a bare acnsim.Event or a user-defined Event subclass, with its own precedence
-   and an event_type the simulator does not dispatch on (`code` = its number under the enumeration of
-   tools/anchors.d/sim.py, i.e. not 0/1/2; float('inf') precedence is encoded as a large integer) *)
+(* any other queue entry: a bare acnsim.Event or a user-defined Event subclass, with its own precedence;
+   `code` = the number of its event_type LABEL under the enumeration of tools/anchors.d/sim.py —
+   _process_event dispatches on the label, so an entry labelled "Recompute" (code 2) requests a resolve,
+   any unknown label is ignored; float('inf') precedence is encoded as a large integer *)
 | EOther (ts : Z) (prec : Z) (code : Z).
 
 Definition ev_ts (e : event) : Z :=
